@@ -1352,10 +1352,17 @@ fn gen_query(rng: &mut Rng, float: bool, span: i64, special: bool) -> String {
     }
 }
 
+/// mostly letters and digits (so that trigrams survive the alphanumeric filter)
+const WORDY: [char; 24] = ['a', 'b', 'c', 'a', 'b', 'c', 'd', 'e', 'l', 'o', 'w', 'r', 'h', '0', '1', '7', 'A', 'B', 'Z', ' ', '-', 'é', 'ß', 'ø'];
+
 fn gen_string(rng: &mut Rng) -> Option<String> {
     match rng.below(16) {
         0 => None,
         1 => Some(String::new()),
+        2..=9 => {
+            let n = rng.range(2, 14);
+            Some((0..n).map(|_| *rng.pick(&WORDY)).collect())
+        }
         _ => {
             let n = rng.range(1, 12);
             Some((0..n).map(|_| *rng.pick(&ALPHABET)).collect())
@@ -1369,7 +1376,7 @@ fn gen_needle(rng: &mut Rng, texts: &[Option<String>]) -> String {
     if !some.is_empty() && rng.chance(3, 4) {
         let s: Vec<char> = rng.pick(&some).chars().collect();
         let a = rng.usize(s.len());
-        let l = rng.range(1, 5) as usize;
+        let l = if rng.chance(1, 2) { rng.range(3, 6) } else { rng.range(1, 4) } as usize;
         s[a..(a + l).min(s.len())].iter().collect()
     } else {
         let n = rng.range(0, 5);
@@ -1573,8 +1580,8 @@ impl Prop for C20 {
     }
     fn budget(&self, tier: Tier) -> usize {
         match tier {
-            Tier::Quick => 1500,
-            Tier::Thorough => 30000,
+            Tier::Quick => 900,
+            Tier::Thorough => 12000,
             Tier::Search => 6000,
         }
     }
